@@ -600,6 +600,9 @@ func c04RunEnvs(base, zero, boundary *Env) ([]string, map[string]interface{}) {
 		"nil": nil, "int": 42, "foreign": c04Foreign{1}, "emptymap": map[string]interface{}{},
 	}
 	m["opbase"], m["opzero"] = c04OpBase(), &c04OpEnv{}
+	bad := baseEnv()
+	bad.S2, bad.S = "a(c", "[z-a]"
+	m["badre"] = bad
 	names := []string{"base", "zero", "boundary", "map", "mapzero", "mapwrong", "nil", "int", "foreign", "emptymap"}
 	return names, m
 }
@@ -1378,6 +1381,24 @@ func runC04() {
 				if cls == "ok" {
 					o.runAll(in, r.val.(*vm.Program), []string{"opbase", "opzero", "nil"})
 				}
+			}
+		}
+	}
+
+	// ---- sequences: patterns known only at run time, an INVALID one first, then valid ones again (a failed run
+	// must leave nothing behind that makes a later run fail or block)
+	for _, src := range []string{"S matches S2", "'abc' matches S2", "S2 matches S", "all(AS, {# matches S2})", "S matches S2 or S matches 'a'", "(S matches S2) ? 1 : 2"} {
+		for _, ops := range []c04Opts{{Env: "struct", Optimize: 1}, {Optimize: -1}} {
+			in := c04Input{Src: src, Opts: ops}
+			r := c04Guard(c04CompileCall(src, func() []expr.Option { return ops.build(base) }))
+			if o.judge("compile", in, r, true) != "ok" {
+				continue
+			}
+			o.runAll(in, r.val.(*vm.Program), []string{"base", "badre", "base", "badre", "zero", "base"})
+			for _, en := range []string{"badre", "base", "badre", "base"} {
+				env := envs[en]
+				re := c04Guard(func() (interface{}, error) { return expr.Eval(src, env) })
+				o.judge("eval", c04Input{Src: src, Env: en}, re, false)
 			}
 		}
 	}
